@@ -510,7 +510,11 @@ def s8(ctx, rep):
             "the run ends with another status than the job returned (a failed job completes, or vice versa)")
     g = P.method("SimulatorBackend", "_process_on_trial_result_event")
     cg = cfg_of(g)
-    tv = g.params[1]
+    # the parameter that carries the event's time: the one the dispatcher passes the popped time to (by keyword or position)
+    tvs = [p_ for p_ in g.params if p_ != "self" and "time" in p_]
+    if len(tvs) != 1:
+        raise AnchorError("_process_on_trial_result_event: the parameter carrying the event time is not identified")
+    tv = tvs[0]
     stamp = {n.id for n in cg.nodes if n.kind == "stmt" and isinstance(n.ast, ast.Assign) and any(
         isinstance(t, ast.Subscript) and U(t.slice) == "ST_TUNER_TIME" for t in n.ast.targets) and U(n.ast.value) == tv}
     oks = bool(stamp) and cg.path([cg.entry], cg.exit, deleted=stamp, skip_labels=("exc",)) is None
